@@ -104,6 +104,134 @@ CLAIMS["C20"] = dict(
          "callable objects/partials are covered only through inspect.signature's own behaviour (assumed).",
     technique="deductive: effect (frame) clauses over the ghost call log, z3",
 )
+CLAIMS["C01"] = dict(
+    category="proof",
+    text="Exact (order-only, IEEE-sound) proof for every dimension and every fixed-variable pattern that Problem.build_x + "
+         "BoundConstraints.project return a NaN-free point inside [lb, ub] with lb==ub components held, from the invariant that "
+         "BoundConstraints.__init__ is proved to establish; effect clauses prove that the objective, the constraint functions, the callback "
+         "and result.x only ever receive build_x images (Problem.__call__, Problem.maxcv, _build_result); in exact arithmetic with "
+         "infinite bounds allowed, get_trust_region_step and get_second_order_correction_step shift the bounds by exactly the point the "
+         "returned step is added to and meet the subsolvers' preconditions, so the trial point is inside the bounds by construction.",
+    design_ref="5 C01",
+    note="Subsolver contracts (step inside the box it is given) are assumed at the call sites and only checked by the bounded C15 units; "
+         "geometry step and Interpolation.__init__ placement are covered only by the bounded end-to-end monitor (e2e.scenarios) and the "
+         "bounded Problem.__init__ stand-in; REAL model for the step arithmetic.",
+    technique="deductive: Mode A vectors (closure-composed, one fresh index), ORDER/REAL float models, z3",
+)
+CLAIMS["C02"] = dict(
+    category="proof",
+    text="best_eval returns fun, maxcv and x of one and the same retained index (unbounded); the filter entries are elements of the ghost "
+         "evaluation history (SUBSET invariant of Problem.__call__), stored raw (pre-barrier); _build_result copies them and rebuilds x; "
+         "Problem.maxcv / NonlinearConstraints.violation compute max(0, linear part, max(c_ub,0), |c_eq|) of the values handed to them "
+         "with NumPy NaN-propagation and call no user function. The reduction/scaling algebra of Problem.__init__ and the linear part are "
+         "covered by a bounded stand-in (random statements, every fixed pattern) and the bounded end-to-end monitor.",
+    design_ref="5 C02",
+    note="N3 for equalities; the linear violation is SciPy's PreparedConstraint.violation on the reduced constraints (assumed contract); "
+         "Problem.__init__ bounded only (2-D array code outside the Mode A proxies).",
+    technique="deductive: list/vector contracts with z3; bounded run-time contracts for the 2-D reduction code",
+)
+CLAIMS["C06"] = dict(
+    category="proof",
+    text="Frame (effect) clauses over a ghost call log on the real bodies: Problem.__call__ makes exactly one objective and one "
+         "constraint evaluation at the rebuilt full point and one callback; NonlinearConstraints.__call__ makes one user call per "
+         "constraint object at the given point (first and later calls); ObjectiveFunction.__call__ one call on a fresh copy; Problem.maxcv/"
+         "violation, NonlinearConstraints.violation/maxcv, best_eval (non-empty filter), TrustRegion.merit/set_best_index/increase_penalty/"
+         "decrease_penalty/get_reduction_ratio, _eval after its evaluation, _build_result and every path of minimize (incl. disp=True "
+         "printing) make none.",
+    design_ref="5 C06",
+    note="SciPy's PreparedConstraint/VectorFunction cache is an assumed contract; get_constraint_linearizations, set_multipliers, the "
+         "step computations and the models are executed on opaque values only through their callers' stubs (they have no access path "
+         "to the user functions other than pb(...), which is logged).",
+    technique="deductive: ghost call log + effect clauses on every explored path",
+)
+CLAIMS["C10"] = dict(
+    category="proof",
+    text="Contracts on the normalisation layer: build_x is exactly clip(x*factor+shift) on free and clip(fixed value) on fixed components "
+         "(all n, all patterns); NonlinearConstraints.__call__ produces rows that depend only on each component's limits and value, objects "
+         "contributing in order; plus a bounded cross-check that eight pairs of equivalent statements (Bounds/array, dict/"
+         "NonlinearConstraint, one two-sided/two one-sided, split linear rows, fixed variable vs hand elimination, scale vs explicit unit "
+         "box) give identical evaluation sequences and results, and the bounded Problem.__init__ stand-in for the reduced linear data.",
+    design_ref="5 C10",
+    note="The step from equal internal data to equal runs rests on C11 and on bit-reproducibility of NumPy/LAPACK (assumed); "
+         "_get_bounds/_get_constraints/Problem.__init__ are covered by bounded checks only.",
+    technique="deductive contracts on the normalisers + bounded differential runs",
+)
+CLAIMS["C11"] = dict(
+    category="proof",
+    text="Non-interference by frames: ownership obligations (no in-place write to a user-owned array or dict on any explored path of "
+         "BoundConstraints.__init__, NonlinearConstraints.__call__, the prologue of minimize; user functions receive fresh copies) and a "
+         "whole-package syntactic frame decided on every run (no global/nonlocal, no module/class state written in functions, no "
+         "module-level container mutated, no caching decorator, no mutable default, no ambient nondeterminism).",
+    design_ref="5 C11",
+    note="No schedule is explored: if no call writes to memory reachable from another call every interleaving equals the serial run; "
+         "thread-safety and bit-reproducibility of NumPy/SciPy/BLAS, and np.printoptions in disp mode, are assumed.",
+    technique="deductive: ownership (frame) obligations + syntactic frame scan",
+)
+CLAIMS["C12"] = dict(
+    category="proof",
+    text="Unbounded: every value recorded during the initial sampling is the value returned by the evaluation at that very interpolation "
+         "point, _eval returns the evaluated values, Problem.__call__ returns barrier-clipped finite values. Bounded (exact rational-"
+         "function arithmetic on the real methods, n<=4): fresh models interpolate; update_interpolation updates every model (also when "
+         "an update reports ill-conditioning), records values/point and preserves interpolation; shift_x_base and reset_models preserve it.",
+    design_ref="5 C12",
+    note="SOLVE: Quadratic.solve_systems returns the exact solution of the system built by build_system (eigh exact, not ill-"
+         "conditioned); the 'error proportional to machine precision x conditioning' clause is not applicable (floating-point accuracy "
+         "of eigh); dimensions n<=4 with partly sampled geometry (see the units' bounded text).",
+    technique="deductive effect clauses + exact symbolic execution at fixed dimensions (bounded)",
+)
+CLAIMS["C13"] = dict(
+    category="other",
+    text="Bounded: the real build_system/_get_model/update/shift/view methods are executed on exact rational-function arrays at fixed "
+         "dimensions (n<=4, npt<=15): the system matrix is the scaled KKT matrix of the least-Frobenius-norm problem, _get_model satisfies "
+         "its KKT conditions, update adds exactly the least-norm interpolant of the residuals, and value/grad/hess/hess_prod/curv are those "
+         "of one quadratic, invariant under shift_x_base. 289 polynomial identities decided by normal form.",
+    design_ref="5 C13",
+    note="Bounded in dimension; SOLVE assumed; that KKT conditions characterise the minimiser is a cited theorem; the rounding clause is "
+         "not applicable.",
+    technique="exact symbolic execution of the real methods (sympy rational function field), bounded",
+)
+CLAIMS["C14"] = dict(
+    category="other",
+    text="Bounded: Models.determinants executed exactly at n<=4: asked for all indices it agrees with asked for one index, and sigma_k * det W "
+         "equals det W_new(k) computed directly (39 identities).",
+    design_ref="5 C14",
+    note="Bounded in dimension (fully symbolic geometry only for n=1 and n=2,npt=3; rational geometry with symbolic new point above); SOLVE "
+         "assumed; floating-point accuracy not covered.",
+    technique="exact symbolic execution of the real method, bounded",
+)
+CLAIMS["C15"] = dict(
+    category="other",
+    text="Mixed. Proved: _alpha_tr returns a non-negative step length reaching the trust-region boundary (NRA); cauchy_geometry returns one "
+         "of its two candidates computed on the clamped bounds; _cauchy_geom's step is a clip result inside the clamped bounds; the call "
+         "sites in the framework meet the subsolvers' preconditions. Bounded: the five subsolvers are run on 3000 (30000 thorough) seeded "
+         "cases (floats over 12 decades and small-integer instances, all listed degeneracies) against bounds/radius/linear-inequality/"
+         "null-space clauses as run-time contracts.",
+    design_ref="5 C15",
+    note="The truncated-CG loops (QR projections, rotations) are not proved; bounded detection is probabilistic.",
+    technique="deductive units for the small pieces + bounded run-time contracts for the numerical loops",
+)
+CLAIMS["C16"] = dict(
+    category="other",
+    text="Mixed. Proved: cauchy_geometry solves the negated problem as second candidate and returns the candidate with the larger |q|, hence "
+         "|q| >= |const| given the callee contract. Bounded: tangential steps do not increase the model, normal steps do not increase the "
+         "violation, geometry steps do not decrease |q|, strict increase of the Cauchy geometry step when a feasible improving direction "
+         "exists and the box fits in the trust region (found and fixed two genuine defects: _cauchy_geom signs, spider_geometry step sizes).",
+    design_ref="5 C16",
+    note="The clause 'at least the decrease of the projected-gradient Cauchy step' is not applicable (its oracle is an algorithm) and not "
+         "checked; bounded detection is probabilistic.",
+    technique="deductive selection contract + bounded run-time contracts",
+)
+CLAIMS["C17"] = dict(
+    category="proof",
+    text="NonlinearConstraints.__call__ proved for symbolic-length components and 0..2 constraint objects: each component yields exactly "
+         "one equality row at the midpoint iff |ub-lb|<=tol, else one row lb-v iff lb>-inf and one row v-ub iff ub<inf, nothing for NaN/"
+         "unlimited limits, lower block before upper block per object, reported sizes equal returned sizes; BoundConstraints.__init__ "
+         "neutralises NaN bounds; the violation contract gives max(0, rows). Linear constraints: bounded stand-in only.",
+    design_ref="5 C17",
+    note="get_arrays_tol is a contract stub (non-negative tolerance); LinearConstraints.__init__ is only covered by the bounded "
+         "Problem.__init__ stand-in (internal residuals vs the user's constraints on random statements).",
+    technique="deductive: guarded vectors (masks compose on the base index), ORDER model, z3",
+)
 NOT_YET = "no check registered yet in this revision (machinery under construction); not claimed"
 NA = {
     "C04": "convergence to the minimiser on reference problems is a whole-run limit property of a floating-point iteration; "
